@@ -13,6 +13,7 @@ import (
 	"cosmossdk.io/math"
 	sdk "github.com/cosmos/cosmos-sdk/types"
 
+	"github.com/tendermint/fundraising/x/fundraising/keeper"
 	"github.com/tendermint/fundraising/x/fundraising/types"
 )
 
@@ -35,6 +36,10 @@ const (
 	// OpFaultBlock is a block during which the FailAt-th bank transfer fails (fault injection). On
 	// correct code block processing reports the failure and the chain stops there.
 	OpFaultBlock = "faultBlock"
+	// OpHooks (prologue, C17 only) routes every later operation of the history through a keeper
+	// that has Listeners instrumented hook listeners registered; listener FaultPos returns an error
+	// from the FaultOcc-th invocation of FaultMethod ("" = never).
+	OpHooks = "hooks"
 )
 
 // Sched is one vesting schedule entry of a create message.
@@ -90,6 +95,12 @@ type Op struct {
 	BidFee         string `json:"bid_fee,omitempty"`
 	ExtendedPeriod uint32 `json:"extended_period,omitempty"`
 	RawFees        bool   `json:"raw_fees,omitempty"` // build fee coins without sorting/validation
+
+	// hooks
+	Listeners   int    `json:"listeners,omitempty"`
+	FaultMethod string `json:"fault_method,omitempty"`
+	FaultPos    int    `json:"fault_pos,omitempty"`
+	FaultOcc    int    `json:"fault_occ,omitempty"`
 }
 
 func (o Op) String() string {
@@ -131,6 +142,10 @@ type Result struct {
 	Panic string // recovered panic (with stack) when the implementation panicked
 	// FaultHit describes the transfer that an injected fault made fail (faultBlock only).
 	FaultHit string
+	// HookCalls are the listener invocations recorded during the operation and VetoIssued tells
+	// whether the planned listener failure happened during it (histories with OpHooks only).
+	HookCalls  []hookCall
+	VetoIssued bool
 }
 
 func dec(s string) math.LegacyDec {
@@ -286,6 +301,15 @@ type World struct {
 	Height int64
 	Halted bool // a block hook failed: a real chain would have stopped here
 	Log    []Op
+	// Rig, when set (OpHooks), is the keeper with instrumented listeners every operation goes through.
+	Rig *HookRig
+}
+
+func (w *World) keeper() *keeper.Keeper {
+	if w.Rig != nil {
+		return w.Rig.K
+	}
+	return &w.B.K
 }
 
 // NewWorld starts a history on a fresh branch.
@@ -305,7 +329,17 @@ func recoverTo(res *Result) {
 // history's branch only when the operation succeeds, which is what a transaction does.
 func (w *World) Apply(o Op) (res Result) {
 	w.Log = append(w.Log, o)
+	if w.Rig != nil {
+		w.Rig.calls, w.Rig.veto = nil, false
+		defer func() {
+			res.HookCalls = append([]hookCall(nil), w.Rig.calls...)
+			res.VetoIssued = w.Rig.veto
+		}()
+	}
 	switch o.Kind {
+	case OpHooks:
+		w.Rig = newHookRig(w.B, o)
+		return Result{OK: true}
 	case OpBlock:
 		return w.applyBlock(o)
 	case OpFaultBlock:
@@ -324,7 +358,7 @@ func (w *World) Apply(o Op) (res Result) {
 		cc, write := w.Ctx.CacheContext()
 		func() {
 			defer recoverTo(&res)
-			err := w.B.K.AddAllowedBidders(cc, o.Auction, []types.AllowedBidder{{
+			err := w.keeper().AddAllowedBidders(cc, o.Auction, []types.AllowedBidder{{
 				AuctionId:    o.Auction,
 				Bidder:       o.BidderAddr(),
 				MaxBidAmount: math.NewIntFromBigInt(bigOf(o.MaxBid)),
@@ -348,7 +382,7 @@ func (w *World) Apply(o Op) (res Result) {
 				res.Err = err.Error()
 				return
 			}
-			if err := w.B.K.UpdateAllowedBidder(cc, o.Auction, addr, math.NewIntFromBigInt(bigOf(o.MaxBid))); err != nil {
+			if err := w.keeper().UpdateAllowedBidder(cc, o.Auction, addr, math.NewIntFromBigInt(bigOf(o.MaxBid))); err != nil {
 				res.Err = err.Error()
 				return
 			}
@@ -434,6 +468,9 @@ func (w *World) applyMsg(o Op) (res Result) {
 	if h == nil {
 		panic("harness: no handler for " + sdk.MsgTypeURL(msg))
 	}
+	if w.Rig != nil {
+		h = w.Rig.handle
+	}
 	cc, write := w.Ctx.CacheContext()
 	func() {
 		defer recoverTo(&res)
@@ -474,7 +511,13 @@ func (w *World) applyBlock(o Op) (res Result) {
 	cc, write := w.Ctx.CacheContext()
 	func() {
 		defer recoverTo(&res)
-		if err := mod.BeginBlock(cc); err != nil {
+		var err error
+		if w.Rig != nil {
+			err = w.Rig.K.BeginBlocker(cc)
+		} else {
+			err = mod.BeginBlock(cc)
+		}
+		if err != nil {
 			res.Err = err.Error()
 			return
 		}
